@@ -128,6 +128,52 @@ func verifEdges(dag dgraph.DirectedGraph[*DAGItem]) []string {
 	return res
 }
 
+// verifCanon renames the dependency-group nodes of an edge dump by their structure (the kinds and
+// canonical names of what they depend on), so that graphs are compared up to the identifiers the
+// implementation chooses for its group nodes. Lines: "node <id> kind=<k>" and "<id> <- <dep> (<type>)".
+func verifCanon(lines []string) []string {
+	group := map[string]bool{}
+	deps := map[string][][2]string{}
+	for _, l := range lines {
+		if strings.HasPrefix(l, "node ") {
+			f := strings.Fields(l)
+			if len(f) == 3 && f[2] == "kind="+string(DagItemKindDependencyGroup) {
+				group[f[1]] = true
+			}
+			continue
+		}
+		f := strings.Fields(l) // id <- dep (type)
+		if len(f) == 4 {
+			deps[f[0]] = append(deps[f[0]], [2]string{f[2], f[3]})
+		}
+	}
+	var sig func(id string, depth int) string
+	sig = func(id string, depth int) string {
+		if !group[id] || depth > 8 {
+			return id
+		}
+		var parts []string
+		for _, d := range deps[id] {
+			parts = append(parts, sig(d[0], depth+1)+d[1])
+		}
+		sort.Strings(parts)
+		return "group[" + strings.Join(parts, ",") + "]"
+	}
+	var res []string
+	for _, l := range lines {
+		f := strings.Fields(l)
+		if strings.HasPrefix(l, "node ") && len(f) == 3 {
+			res = append(res, "node "+sig(f[1], 0)+" "+f[2])
+		} else if len(f) == 4 {
+			res = append(res, sig(f[0], 0)+" <- "+sig(f[2], 0)+" "+f[3])
+		} else {
+			res = append(res, l)
+		}
+	}
+	sort.Strings(res)
+	return res
+}
+
 func verifDiff(a, b []string) (onlyA, onlyB []string) {
 	in := func(x string, l []string) bool {
 		for _, y := range l {
@@ -269,13 +315,15 @@ func VerifH_C10_reference_edges() {
 	if err != nil {
 		return
 	}
-	extra, lost := verifDiff(verifEdges(ew.DAG()), edges0)
+	extra, lost := verifDiff(verifCanon(verifEdges(ew.DAG())), verifCanon(edges0))
 	if tg.node == "input" && tag == 0 && field == "input" {
 		// same reference as in the base workflow
 		verifrt.Assert(len(extra) == 0 && len(lost) == 0, "an input reference adds only the input edge")
 		return
 	}
-	wantExtra, missingWant := verifDiff(want, edges0)
+	// the expected lines are written with the current identifiers of the group nodes; both sides are
+	// compared in canonical form, so another naming scheme for group nodes is not an alarm
+	wantExtra, missingWant := verifDiff(verifCanon(append(append([]string{}, want...), edges0...)), verifCanon(edges0))
 	_ = missingWant
 	gotOnly, wantOnly := verifDiff(extra, wantExtra)
 	if len(gotOnly)+len(wantOnly) > 0 {
